@@ -88,6 +88,12 @@ def run(tier):
         for d in docs:
             for _ in range(nlong):
                 progs.append((d["doc"], tuple(rnd.choices([1, 2, 3, 4], weights=[10, 5, 3, 2], k=longlen))))
+        # a document of tens of kilobytes makes every event of its traces that large: it gets a seeded sample of programs
+        heavy = {d["doc"] for d in docs if len(json.dumps(d["forest"])) > 20000}
+        if heavy:
+            hp = [x for x in progs if x[0] in heavy]
+            keep = set(map(id, rnd.sample(hp, min(len(hp), 250 * len(heavy)))))
+            progs = [x for x in progs if x[0] not in heavy or id(x) in keep]
         # renderings, each pre-checked by a plain full traversal against the forest
         rends = []
         for d in docs:
